@@ -242,6 +242,8 @@ func (e persistEngine) Run(raw json.RawMessage) (interface{}, error) {
 		}
 		_ = fs.Chmod(f.Path.String(), os.FileMode(f.Mode))
 	}
+	rec := &recFs{Fs: fs}
+	fs = rec
 	mod := &artModule{name: "m"}
 	for _, a := range in.Arts {
 		mod.arts = append(mod.arts, a.toArtifact())
@@ -284,7 +286,34 @@ func (e persistEngine) Run(raw json.RawMessage) (interface{}, error) {
 		b := toB(resp.GetError())
 		obs.Error = &b
 	}
+	probed := map[string]bool{}
 	for _, p := range in.Probes {
+		probed[filepath.Clean(p.String())] = true
+	}
+	for _, p := range in.Probes {
+		if p.String() == straysProbe {
+			// "a file at exactly the given path": anything else left on the file system (scratch
+			// files, backups) shows up here as a file whose content lists the unexpected paths
+			var strays []string
+			seenStray := map[string]bool{}
+			for _, path := range rec.touched {
+				c := filepath.Clean(path)
+				if probed[c] || seenStray[c] {
+					continue
+				}
+				seenStray[c] = true
+				if _, err := fs.Stat(c); err == nil {
+					strays = append(strays, c)
+				}
+			}
+			sort.Strings(strays)
+			if len(strays) > 0 {
+				obs.Probes = append(obs.Probes, probeJ{1, toB(strings.Join(strays, ",")), 0})
+			} else {
+				obs.Probes = append(obs.Probes, probeJ{0, B{}, 0})
+			}
+			continue
+		}
 		fi, err := fs.Stat(p.String())
 		switch {
 		case err != nil:
@@ -298,6 +327,40 @@ func (e persistEngine) Run(raw json.RawMessage) (interface{}, error) {
 	}
 	return obs, nil
 }
+
+// recFs remembers every path handed to a mutating call of the file system.
+type recFs struct {
+	afero.Fs
+	touched []string
+}
+
+func (r *recFs) note(p ...string) { r.touched = append(r.touched, p...) }
+func (r *recFs) Create(name string) (afero.File, error) {
+	r.note(name)
+	return r.Fs.Create(name)
+}
+func (r *recFs) Mkdir(name string, perm os.FileMode) error {
+	r.note(name)
+	return r.Fs.Mkdir(name, perm)
+}
+func (r *recFs) MkdirAll(path string, perm os.FileMode) error {
+	r.note(path)
+	return r.Fs.MkdirAll(path, perm)
+}
+func (r *recFs) OpenFile(name string, flag int, perm os.FileMode) (afero.File, error) {
+	if flag&(os.O_CREATE|os.O_WRONLY|os.O_RDWR|os.O_TRUNC|os.O_APPEND) != 0 {
+		r.note(name)
+	}
+	return r.Fs.OpenFile(name, flag, perm)
+}
+func (r *recFs) Rename(oldname, newname string) error {
+	r.note(oldname, newname)
+	return r.Fs.Rename(oldname, newname)
+}
+
+// straysProbe: a pseudo path (never a real file) under which the harness reports file-system
+// entries that no probe covers; the model answers "absent" for it like for any unknown path.
+const straysProbe = "\x00strays"
 
 func mkArt(k, name, text string) artJ {
 	return artJ{K: k, Name: toB(name), IP: B{}, Text: toB(text), Perms: 0644}
@@ -352,6 +415,7 @@ func finishPersistIn(in *persistIn) {
 	}
 	sort.Strings(keys)
 	in.Probes = []B{}
+	defer func() { in.Probes = append(in.Probes, toB(straysProbe)) }()
 	for _, p := range keys {
 		in.Probes = append(in.Probes, toB(p))
 	}
@@ -554,14 +618,16 @@ func (e persistEngine) genC12(g *Gen, emit func(persistIn)) {
 		}
 	}
 	rec(nil, maxLen)
-	names := []string{"a", "d/a", "d/./a", "d/e/../a", "/abs/a", "d/b", "q/r/s/t", "./a", "d//a", "z/keep", "w"}
+	names := []string{"a", "d/a", "d/./a", "d/e/../a", "/abs/a", "d/b", "q/r/s/t", "./a", "d//a", "z/keep", "w", "a.tmp", "d/a.tmp", "a~", "w.tmp"}
+	// neighbours that scratch-file schemes would use
+	pre = append(pre, fileEntJ{toB("a.tmp"), toB("old-tmp"), 0640}, fileEntJ{toB("d/a.tmp"), toB("old-da-tmp"), 0600}, fileEntJ{toB("w.tmp"), toB("w"), 0644})
 	n := 3000
 	if g.Thorough() {
 		n = 60000
 	}
 	for i := 0; i < n; i++ {
 		var in persistIn
-		for b := 0; b < 4; b++ {
+		for b := range pre {
 			if g.Rng.Intn(2) == 0 {
 				in.FS0 = append(in.FS0, pre[b])
 			}
@@ -573,6 +639,8 @@ func (e persistEngine) genC12(g *Gen, emit func(persistIn)) {
 				txt := strings.Repeat("c", g.Rng.Intn(6)) + fmt.Sprint(j)
 				if g.Rng.Intn(3) == 0 { // identical contents in different artifacts
 					txt = pick(g.Rng, []string{"same", "hdr", ""})
+				} else if g.Rng.Intn(5) == 0 { // custom files are byte payloads: not necessarily UTF-8
+					txt = pick(g.Rng, []string{"\xff\xfe\x00bin", "caf\xe9", "\xe2\x82", "ok\xc0\xafz", "\xef\xbf\xbd kept"})
 				}
 				a := mkc(pick(g.Rng, names), txt, g.Rng.Intn(2) == 0, []int{0644, 0600, 0755, 0444, 0640}[g.Rng.Intn(5)])
 				if g.Rng.Intn(3) == 0 {
